@@ -52,6 +52,9 @@ def run_shard_main(args):
     if budget:
         ctx.deadline = time.time() + budget
     core.import_eqsig()
+    from vf import linereach
+    if os.environ.get('VERIF_LINEREACH', '1') != '0':
+        linereach.start(core.repo_dir())
     try:
         if args.testsuite:
             run_testsuite(ctx, mod)
@@ -63,6 +66,7 @@ def run_shard_main(args):
         import traceback
         res = ctx.result()
         res['crashed'] = ''.join(traceback.format_exception(type(e), e, e.__traceback__))[-4000:]
+    res['linereach'] = linereach.result()
     with open(args.out, 'w') as f:
         json.dump(res, f)
     return 0
@@ -105,6 +109,18 @@ def run_testsuite(ctx, mod):
         ctx.ok(TS_DONE)
     else:
         ctx.observe('testsuite-under-monitors: pytest exit %s: %s' % (int(rc), tail[:100]))
+
+
+def anchored_files(prop):
+    """anchors.files of the property (properties.jsonl is given and fixed)"""
+    try:
+        for l in open(os.path.join(HERE, 'properties.jsonl')):
+            p = json.loads(l)
+            if p.get('id') == prop:
+                return list(p.get('anchors', {}).get('files', []))
+    except Exception:
+        pass
+    return []
 
 
 def load_ledger():
@@ -218,6 +234,7 @@ def finish(args, mod, results, problems, nsh, t0, repo, with_ts=False):
     counters, viol_counts, finding_counts, observations, classes, notes, exhaustive = {}, {}, {}, {}, {}, {}, {}
     violations, samples = [], []
     keysets = {}
+    reached = {}
     digests = set()
     dbc = 0
     cases = 0
@@ -238,6 +255,8 @@ def finish(args, mod, results, problems, nsh, t0, repo, with_ts=False):
             exhaustive[k] += v
         for k, v in r.get('keysets', {}).items():
             keysets.setdefault(k, set()).update(v)
+        for k, v in r.get('linereach', {}).items():
+            reached.setdefault(k, set()).update(v)
 
     # -- attribute to known findings: only OPEN ledger entries of this property can absorb a violation -------------
     ledger = load_ledger()
@@ -329,6 +348,19 @@ def finish(args, mod, results, problems, nsh, t0, repo, with_ts=False):
     if getattr(mod, 'EXHAUSTIVE', None) and exhaustive:
         ev['coverage']['exhaustive_subspaces'] = {'description': mod.EXHAUSTIVE.get(args.tier, ''), 'enumerated': exhaustive}
         ev['coverage']['exhaustive'] = False   # the property quantifies over more than the enumerated sub-space
+    reach_line = ''
+    try:
+        from vf import linereach
+        anchors = anchored_files(prop)
+        if reached and anchors:
+            lr = linereach.summarise(repo, anchors, reached)
+            ev['coverage']['anchor_line_reach'] = lr
+            reach_line = ('  anchored source reached by the monitored workload: %d of %d statement lines in %d functions entered '
+                          '(%d functions of the anchored files never entered)'
+                          % (lr['statement_lines_reached'], lr['statement_lines_in_entered_functions'],
+                             lr['functions_entered'], lr['functions_never_entered']))
+    except Exception as e:   # observability only: never changes a verdict
+        ev['coverage']['anchor_line_reach'] = {'error': repr(e)[:300]}
     os.makedirs(os.path.join(out_dir(), 'evidence'), exist_ok=True)
     ev_path = os.path.join(out_dir(), 'evidence', prop + '.json')
     try:
@@ -350,6 +382,8 @@ def finish(args, mod, results, problems, nsh, t0, repo, with_ts=False):
         print('  clause %-38s ok=%-9d violated=%d' % (k, counters[k], viol_counts.get(k, 0)))
     for k in sorted(set(viol_counts) - set(counters)):
         print('  clause %-38s ok=%-9d violated=%d' % (k, 0, viol_counts[k]))
+    if reach_line:
+        print(reach_line)
     if observations:
         print('  observations (no verdict): ' + ', '.join('%s=%d' % kv for kv in sorted(observations.items())))
     for key, n in sorted(n_kf.items()):
